@@ -179,6 +179,10 @@ var pipeStrings = []string{
 
 func pipeDatagram(from string, n, pad int, rnd *rand.Rand) []byte {
 	// content that exercises the wire transform a little: nested objects, arrays of objects, numbers, escapes
+	if pad < 0 {
+		// the shortest datagrams there are (a few bytes on the wire)
+		return []byte(fmt.Sprintf(`{"datagram":%d}`, 1000000+n))
+	}
 	text := strings.Repeat("x", pad)
 	special := pipeStrings[rnd.Intn(len(pipeStrings))]
 	return []byte(fmt.Sprintf(`{"datagram":{"header":{"from":"%s","msgCounter":%d,"ack":%v},"payload":{"cmd":[{"pad":"%s"},{"n":[1,2,%d]},{"t":"%s"}]}}}`,
@@ -249,8 +253,8 @@ func runPipeScenario(id int, seed int64) *pipeResult {
 	if rnd.Intn(2) == 0 {
 		countBA = 10 + rnd.Intn(100)
 	}
-	padAB := []int{10, 2000, 70000}[rnd.Intn(3)]
-	padBA := []int{10, 2000, 70000}[rnd.Intn(3)]
+	padAB := []int{-1, 10, 2000, 70000}[rnd.Intn(4)]
+	padBA := []int{-1, 10, 2000, 70000}[rnd.Intn(4)]
 	for k := rnd.Intn(3); k > 0; k-- {
 		infoB.reader.stallAt = append(infoB.reader.stallAt, 1+rnd.Intn(countAB))
 		infoB.reader.stalls = append(infoB.reader.stalls, time.Duration(200+rnd.Intn(2300))*time.Millisecond)
